@@ -58,6 +58,12 @@ DYN = ["Dyn", "DynHere", "DynK", "DynNoMod"]
 CUSTOM = ["Rewrites", "KwOnly", "TwoPos", "ExtraPos", "SubRewrites", "SubTwoPos", "WithLock", "StrRaises", "ReduceBad"]
 FIXED = ["UnicodeDecodeError", "JSONDecodeError", "NoResultError", "TaskiqResultTimeoutError", "ExceptionGroup", "OSError2"]
 SHADOW = ["ShadowFn", "ShadowInst", "ShadowExc", "ShadowTwoPos"]
+MIXIN = ["LocalMixin", "LocalMixinArgs", "DynMixin", "ModMixin"]      # finding D10: generated only once it is a known finding
+D10 = "pickle_mixin_base_not_exception"
+
+
+def known_signatures():
+    return {k["signature"] for k in C.load_known() if k["property"] == "C19" and k["status"] == "known"}
 ARITY = {"KwOnly": (1, 1), "TwoPos": (2, 2), "SubTwoPos": (2, 2), "LocalSubTwoPos": (2, 2), "ExtraPos": (2, 2),
          "Rewrites": (1, 2), "SubRewrites": (1, 2)}
 ARITY.update({k: (0, 0) for k in FIXED})
@@ -92,10 +98,12 @@ def gen_arg(r, surr=True):
     return r.choice(A_SURR) if k < .975 else r.choice(A_SURRKEY)
 
 
-def gen_node(r, n, shadow, surr):
+def gen_node(r, n, shadow, surr, mixin=False):
     k = r.random()
     if shadow and k < .5:
         cls = r.choice(SHADOW)
+    elif mixin and k > .94:
+        cls = r.choice(MIXIN)
     elif k < .22:
         cls = r.choice(PLAIN)
     elif k < .32:
@@ -123,10 +131,10 @@ def gen_node(r, n, shadow, surr):
                 suppress=r.random() < .35)
 
 
-def gen_case(r, shadow=False):
+def gen_case(r, shadow=False, mixin=False):
     n = r.choice([1, 1, 2, 2, 3, 3, 4, 4, 5, 6])
     surr = r.random() < .3
-    nodes = [gen_node(r, n, shadow, surr) for _ in range(n)]
+    nodes = [gen_node(r, n, shadow, surr, mixin) for _ in range(n)]
     if n >= 3 and r.random() < .3:
         # a chain through all nodes (depth n), the other link of each node stays random (back-links, shared nodes)
         for i, s in enumerate(nodes[:-1]):
@@ -304,8 +312,11 @@ def sig_of(case, obs, enc, stage):
     o = obs["enc"][enc]
     rs = reach(case)
     args = [m for i in rs for m in obs["nodes"][i]["args"]]
-    return dict(enc=enc, stage=stage, exc=o.get("exc"), msg=o.get("msg", ""),
-                surrogate=any(m["surrogate"] for m in args), surrogate_key=any(m["surrogate_key"] for m in args))
+    root = obs["nodes"][0]
+    first = next((m for m in root["mro"] if m["ok_pickle"]), None)
+    return dict(enc=enc, stage=stage, exc=o.get("exc"), msg=o.get("msg", ""), outcome=o["o"],
+                surrogate=any(m["surrogate"] for m in args), surrogate_key=any(m["surrogate_key"] for m in args),
+                mixin_first=bool(not root["exc_rt_pickle"] and first is not None and not first["is_exc"]))
 
 
 def surrogate_str_json_text(f):
@@ -324,7 +335,16 @@ def surrogate_key_json_dict(f):
             and "surrogates not allowed" in s.get("msg", "") and bool(s.get("surrogate_key")))
 
 
-SIGNATURES = dict(surrogate_str_json_text=surrogate_str_json_text, surrogate_key_json_dict=surrogate_key_json_dict)
+def pickle_mixin_base_not_exception(f):
+    """exactly: the PICKLE round trip yields a non-exception `error`, Python's own pickling of the root exception fails
+    and the first class of its MRO (before Exception/BaseException/object) whose cls(*args) constructs and pickles is
+    not a BaseException subclass - all three measured without taskiq"""
+    s = f.get("sig") or {}
+    return s.get("enc") == "pickle" and s.get("outcome") == "notexc" and bool(s.get("mixin_first"))
+
+
+SIGNATURES = dict(surrogate_str_json_text=surrogate_str_json_text, surrogate_key_json_dict=surrogate_key_json_dict,
+                  pickle_mixin_base_not_exception=pickle_mixin_base_not_exception)
 
 
 # --------------------------------------------------------------------------- run
@@ -435,14 +455,20 @@ def run(ctx):
     rep = C.Report(ctx, META)
     rep.add_obligations(C.proof_obligations("C19"))
     corpus_known = {}
+    known = known_signatures()
+    mixin = D10 in known
+    rep.extra["d10_mixin_branch_enabled"] = mixin
     for name, c in C.load_corpus("C19"):
+        if c.get("requires_known") and c["requires_known"] not in known:
+            rep.count("corpus:skipped(proposed finding %s not in known_findings.json)" % c["requires_known"])
+            continue
         before = len(rep.failures)
         explore(ctx, rep, [c], "corpus_" + name.replace(".json", "").replace("-", "_"), use_oracle=c.get("family") != "shadow")
         for sig, pred in SIGNATURES.items():
             if any(pred(f) for f in rep.failures[before:]):
                 corpus_known[sig] = True
     r = ctx.sub_rng("gen")
-    cases = [gen_case(r) for _ in range(ctx.n(3000, 60000))]
+    cases = [gen_case(r, mixin=mixin) for _ in range(ctx.n(3000, 60000))]
     broken, _ = explore(ctx, rep, cases, "main")
     rs = ctx.sub_rng("shadow")
     b2, _ = explore(ctx, rep, [gen_case(rs, shadow=True) for _ in range(ctx.n(300, 4000))], "shadow", use_oracle=False)
@@ -450,7 +476,7 @@ def run(ctx):
     unexplained = [f for f in rep.failures if not any(p(f) for p in SIGNATURES.values())]
     if (broken or any(not o["ok"] for o in rep.obligations)) and not unexplained:
         r2 = ctx.sub_rng("search")
-        explore(ctx, rep, [gen_case(r2) for _ in range(ctx.n(12000, 60000))], "search")
+        explore(ctx, rep, [gen_case(r2, mixin=mixin) for _ in range(ctx.n(12000, 60000))], "search")
     return rep.finish(SIGNATURES, corpus_known)
 
 
@@ -458,7 +484,7 @@ def replay(ctx, path):
     rec = json.load(open(path))
     c = rec.get("case", rec)
     enc_only = c.get("enc")
-    c = {k: v for k, v in c.items() if k != "enc"}
+    c = {k: v for k, v in c.items() if k not in ("enc", "note", "requires_known")}
     obs = C.run_driver(ctx, "excser_driver", [c], nproc=1)[0]
     print("case:", json.dumps(c))
     if "_crash" in obs:
